@@ -151,7 +151,15 @@ static void Worker(TracedPool * pool, Mailbox * mb, unsigned seed, int nOps, boo
             case 3: {ObjRef tmp(slots[a]); CHECK(tmp); slots[b].SwapContents(tmp);} break;
             case 4: {DECLARE_MUTEXGUARD(mb->m); CHECK(mb->slot); slots[a] = mb->slot;} break;
             case 5: {DECLARE_MUTEXGUARD(mb->m); mb->slot = slots[a];} break;
-            case 6: {ConstObjRef c = AddConstToRef(slots[a]); ObjRef back = CastAwayConstFromRef(c); CHECK(back); slots[b] = back;} break;
+            case 6: if ((gen()%3) == 0) {
+                       // an object owned through a raw pointer, seen through NON-counting refs (and their const / non-const conversions): nothing they do may count or destroy it
+                       Obj * raw = new Obj; raw->heap = true; raw->state = 42; raw->serial = ++g_serial; TLine("Alloc", ObjId(raw));
+                       {ObjRef d; d.SetRef(raw, false); ConstObjRef c = AddConstToRef(d); ObjRef back = CastAwayConstFromRef(c); ObjRef copy(back); ConstObjRef c2(c);
+                        if ((back() != raw)||(back.IsRefCounting())||(c.IsRefCounting())||(copy.IsRefCounting())) Bad("a conversion / copy of a non-counting Ref became a counting one");}
+                       if (raw->GetRefCount() != 0) Bad("non-counting Refs changed the reference count of the object they point at");
+                       if (raw->state != 42) Bad("an object owned through a raw pointer was destroyed by a non-counting Ref"); else delete raw;
+                    }
+                    else {ConstObjRef c = AddConstToRef(slots[a]); ObjRef back = CastAwayConstFromRef(c); CHECK(back); slots[b] = back;} break;
             case 7: {ObjRef moved(std::move(slots[a])); CHECK(moved); slots[b] = std::move(moved);} break;
             case 8: if (slots[a]()) {ObjRef alias; alias.SetRef(slots[a](), false); alias.SetRef(slots[a](), true); CHECK(alias);} break;                    // a non-counting alias starts counting (same item): +1, and -1 when it dies
             case 9: if (slots[a]()) {ObjRef alias(slots[a]); alias.SetRef(slots[a](), false); CHECK(alias);} break;                             // a counting alias stops counting (same item): -1 now, nothing when it dies
@@ -227,6 +235,33 @@ public:
    virtual void RecycleObject(void * obj) {g_recycles++; Pool3::RecycleObject(obj);}
 };
 static void Barrier(int nt, int & myPhase) {myPhase++; if (++g_arrived == nt) {g_arrived = 0; g_phase = myPhase;} else while ((g_phase.load() < myPhase)&&(!g_stop.load())) {/* spin */}}
+// churn: every thread keeps obtaining a few objects from a pool with 2-object slabs, marks them as its own, and hands them back: slabs are created,
+// recycled and deleted all the time.  An object must be held by one owner at a time (its mark survives) and be in default state when obtained.
+static int Churn(int seconds, int nt, uint32 seed, const char * outFile)
+{
+   FILE * out = fopen(outFile, "w"); if (!out) return 2;
+   Pool2 * pool = new Pool2(seed%4); std::atomic<long> ops(0), bad(0); std::string firstBad; Mutex badLock; std::atomic<bool> stop(false);
+   const uint64 endAt = GetRunTime64()+SecondsToMicros(seconds);
+   std::vector<std::thread> ths;
+   for (int t=0; t<nt; t++) ths.emplace_back([&, t]() {
+      uint32_t r = seed*2654435761u+(uint32_t) t*977u+1; Obj * mine[6];
+      while (!stop.load()) {
+         r ^= r << 13; r ^= r >> 17; r ^= r << 5;
+         const int k = 1+(int)(r%6);
+         for (int i=0; i<k; i++) {mine[i] = pool->ObtainObject(); if (mine[i]->state != 0) {bad++; DECLARE_MUTEXGUARD(badLock); if (firstBad.empty()) firstBad = "the pool handed out an object that is not in the default state (it is held by somebody else, or was not reset)";} mine[i]->state = 1000+t;}
+         if ((r&3) == 0) std::this_thread::yield();
+         for (int i=0; i<k; i++) {if (mine[i]->state != 1000+t) {bad++; DECLARE_MUTEXGUARD(badLock); if (firstBad.empty()) firstBad = "an object obtained from the pool was handed to a second owner while the first still held it";} pool->ReleaseObject(mine[i]);}
+         ops += k;
+         if ((bad.load() > 0)||((t == 0)&&(GetRunTime64() >= endAt))) stop = true;
+      }
+   });
+   for (size_t k=0; k<ths.size(); k++) ths[k].join();
+   if (bad.load() == 0) {pool->PerformSanityCheck(); uint32 n = 0; pool->Drain(&n); if (pool->GetNumAllocatedItemSlots() != 0) {bad++; firstBad = "objects are still marked in use after every thread handed everything back";}}
+   mj::Value sum = mj::Value::Obj(); sum.set("summary", mj::Value::Bool(true)).set("rounds", mj::Value::Int(ops.load())).set("threads", mj::Value::Int(nt)).set("violated", mj::Value::Int(bad.load() > 0 ? 1 : 0));
+   if (bad.load() > 0) {mj::Value rec = mj::Value::Obj(); mj::Value va = mj::Value::Arr(); va.push(mj::Value::Str(firstBad)); rec.set("violations", va).set("threads", mj::Value::Int(nt)).set("churn", mj::Value::Bool(true)); fprintf(out, "%s\n", mj::ToString(rec).c_str());}
+   fprintf(out, "%s\n", mj::ToString(sum).c_str()); fclose(out); printf("%s\n", mj::ToString(sum).c_str()); fflush(stdout);
+   _exit(0);
+}
 static int Stress(int seconds, int nt, uint32 seed, const char * outFile)
 {
    FILE * out = fopen(outFile, "w"); if (!out) return 2;
@@ -263,6 +298,7 @@ static int Stress(int seconds, int nt, uint32 seed, const char * outFile)
 int main(int argc, char ** argv)
 {
    CompleteSetupSystem css; vs::Install();
+   if ((argc >= 6)&&(!strcmp(argv[1], "churn"))) return Churn(atoi(argv[2]), atoi(argv[3]), (uint32) atol(argv[4]), argv[5]);
    if ((argc >= 6)&&(!strcmp(argv[1], "stress"))) return Stress(atoi(argv[2]), atoi(argv[3]), (uint32) atol(argv[4]), argv[5]);
 #ifndef VERIF_NO_PRIVATE
    if ((argc >= 6)&&(!strcmp(argv[1], "pool"))) return (atoi(argv[3]) == 2) ? PoolReplay<Pool2>(argv[2], (uint32) atol(argv[4]), argv[5]) : PoolReplay<Pool3>(argv[2], (uint32) atol(argv[4]), argv[5]);
